@@ -7,6 +7,7 @@
   Every theorem below is proved for all managers, operands, variable sets and both quantifiers.
 -/
 import DDProofs.Witness
+import DDProofs.SmallSupport
 namespace DD
 open Std
 
@@ -174,6 +175,74 @@ theorem C03_apply_quant_support (m : Mgr) (hI : Inv m) (hoff : m.lastLen = none)
     constructor
     · intro h b hb; exact h b ((hA b).mpr hb)
     · intro h b hb; exact h b ((hA b).mp hb)
+
+/-- C03: the structural support used above (`InSupp`: levels of the nodes reachable from `u`)
+is the semantic one of C10 (`dependsOn`: flipping the level changes the value somewhere). -/
+theorem C03_inSupp_iff_dependsOn (t : Tbl) (hw : WFU t) (u : Int) (hm : t.Mem u) (i : Nat) :
+    InSupp t u i ↔ dependsOn t u i := inSupp_iff_dependsOn hw u hm i
+
+/-- C03: what `support(u)` answers on a state with `Inv` and a good order: it succeeds, every
+returned name is declared, and the levels of the returned names are exactly `InSupp m.tbl u` —
+the three facts `hsupp`, `hdecl`, `hsem` that `C03_apply_quant(_support)` take as hypotheses. -/
+theorem C03_support_facts (t : Tbl) (hw : WFU t) (hO : OrderOK t) (u : Int) (hm : t.Mem u) :
+    ∃ names, support t u = .ok names ∧ (∀ s, s ∈ names → t.vars.contains s = true) ∧
+      (∀ j, j ∈ names.map (lvlOf t) ↔ InSupp t u j) := by
+  obtain ⟨names, h1, h2, h3, -⟩ := support_inSupp hw hO u hm
+  exact ⟨names, h1, h2, h3⟩
+
+/-- C03 (`apply` quantifiers, UNCONDITIONAL form for reachable states): on every manager with
+the invariant and a good order (`reachable_inv` gives both for every history), for every
+quantifier spelling and every two operands, `apply(op, u, v)` returns normally and its result
+quantifies `v` over exactly the variables the function of `u` depends on.  No hypothesis about
+`support` is left: `hsupp`, `hdecl`, `hsem` of `C03_apply_quant_support` are discharged by
+`C03_support_facts` (= C10's `support` specification). -/
+theorem C03_apply_quant_support_reachable (m : Mgr) (hI : Inv m) (hO : OrderOK m.tbl)
+    (hoff : m.lastLen = none)
+    (op : String) (c : Conn) (hc : docConn op = some c) (hq : c = .forall_ ∨ c = .exists_)
+    (hall : Gen.allOps.contains op = true)
+    (u v : Int) (hu : m.tbl.Mem u) (hv : m.tbl.Mem v) :
+    ∃ r m', apply op u (some v) none m = (.ok r, m') ∧ Inv m' ∧ Ext m.tbl m'.tbl ∧
+      m'.tbl.Mem r ∧ Frame m m' ∧
+      (∀ a, den m'.tbl r a = true ↔
+        (match decide (c = .forall_) with
+         | true => ∀ b : Asg, (∀ j, ¬ InSupp m.tbl u j → b j = a j) → den m.tbl v b = true
+         | false => ∃ b : Asg, (∀ j, ¬ InSupp m.tbl u j → b j = a j) ∧ den m.tbl v b = true)) ∧
+      (∀ a, den m'.tbl r a = true ↔
+        (match decide (c = .forall_) with
+         | true => ∀ b : Asg, (∀ j, ¬ dependsOn m.tbl u j → b j = a j) → den m.tbl v b = true
+         | false => ∃ b : Asg, (∀ j, ¬ dependsOn m.tbl u j → b j = a j) ∧ den m.tbl v b = true)) := by
+  obtain ⟨names, hsupp, hdecl, hsem⟩ := C03_support_facts m.tbl hI.wf hO u hu
+  obtain ⟨r, m', h1, h2, h3, h4, h5, h6⟩ :=
+    C03_apply_quant_support m hI hoff op c hc hq hall u v hu hv names hsupp hdecl hsem
+  refine ⟨r, m', h1, h2, h3, h4, h5, h6, ?_⟩
+  intro a
+  rw [h6 a]
+  have hA : ∀ b : Asg, (∀ j, ¬ InSupp m.tbl u j → b j = a j) ↔
+      (∀ j, ¬ dependsOn m.tbl u j → b j = a j) := by
+    intro b
+    constructor
+    · intro h j hj; exact h j (fun hq => hj ((inSupp_iff_dependsOn hI.wf u hu j).mp hq))
+    · intro h j hj; exact h j (fun hq => hj ((inSupp_iff_dependsOn hI.wf u hu j).mpr hq))
+  cases decide (c = .forall_)
+  · simp only
+    constructor
+    · rintro ⟨b, hb, hf⟩; exact ⟨b, (hA b).mp hb, hf⟩
+    · rintro ⟨b, hb, hf⟩; exact ⟨b, (hA b).mpr hb, hf⟩
+  · simp only
+    constructor
+    · intro h b hb; exact h b ((hA b).mpr hb)
+    · intro h b hb; exact h b ((hA b).mp hb)
+
+/-- non-vacuity of the unconditional form: the witness manager (variable `x`, the node of `x`)
+has `Inv`, a good order, reordering off, and an operand whose support is not empty -/
+example : ∃ (m : Mgr) (u : Int), Inv m ∧ OrderOK m.tbl ∧ m.lastLen = none ∧ m.tbl.Mem u ∧
+    InSupp m.tbl u 0 ∧ dependsOn m.tbl u 0 := by
+  obtain ⟨m, u, hI, hoff, hV, hu, _, _, _, hs⟩ := witness
+  have hO : OrderOK m.tbl := by
+    refine ⟨fun v i => ⟨hV.v2l v i, hV.l2v i v⟩, hV.lt, fun i hi => ?_⟩
+    obtain ⟨v, hv⟩ := hV.onto i hi
+    exact ⟨v, hV.v2l v i hv⟩
+  exact ⟨m, u, hI, hO, hoff, hu, hs, (C03_inSupp_iff_dependsOn m.tbl hI.wf u hu 0).mp hs⟩
 
 /-- every quantifier spelling meets the hypotheses on the alias -/
 example : docConn "\\A" = some .forall_ ∧ docConn "\\E" = some .exists_ ∧
